@@ -1,5 +1,5 @@
 """Registry: property id -> check function(res, tier, seed, replay)."""
-import p_mcb, p_comp, p_vec, p_approx, p_tbb, p_hist, p_mpi, p_dimacs
+import p_mcb, p_comp, p_vec, p_approx, p_tbb, p_hist, p_mpi, p_dimacs, p_conc, p_build
 REGISTRY = {}
 LEVEL = {}
 REGISTRY.update(p_mcb.REGISTRY)
@@ -10,3 +10,5 @@ REGISTRY.update(p_tbb.REGISTRY)
 REGISTRY.update(p_hist.REGISTRY)
 REGISTRY.update(p_mpi.REGISTRY)
 REGISTRY.update(p_dimacs.REGISTRY)
+REGISTRY.update(p_conc.REGISTRY)
+REGISTRY.update(p_build.REGISTRY)
